@@ -135,13 +135,14 @@ def parent_pool(parent_thread, memo=None):
     in irun) or as an attribute of a local state object (a refactoring may keep it in a dataclass). The dict is
     recognised by what it holds (virtual process objects keyed by their names), and once seen it is followed by identity,
     so that it is still found when it is empty. Anything ambiguous raises LayoutChanged (= not decided)."""
+    from mc import sched as sched_mod
     from mc.sched import VProcess
     memo = memo if memo is not None else {}
     fr = sys._current_frames().get(parent_thread.ident)
     dicts = {}
     in_parallel = False
     while fr is not None:
-        if fr.f_code.co_filename.endswith("annet/parallel.py"):
+        if sched_mod.in_pool_file(fr.f_code.co_filename):
             in_parallel = True
             for name, val in list(fr.f_locals.items()):
                 objs = [(name, val)]
@@ -333,6 +334,15 @@ def conform(N, PS, Q, workdir, budget_paths=None):
                 if not any(p[0] == "layout" for p in problems):
                     problems.insert(0, ("layout", str(e)))
                 return None
+            if av["pc"] == "start|restart" and mv["pc"] == "start|restart":
+                # the parent is in the middle of creating a worker: whether the new process object is already entered
+                # in its dict or only after start() is an implementation detail without observable effect; the entry of
+                # a worker that has not run yet is left out of the comparison at this point (it is compared at the next
+                # poll / reap state)
+                pending = {w for w in range(PS) if av["ws"][w] in ("none", "spawned") or mv["ws"][w] in ("none", "spawned")
+                           or av["ws"][w] == "dead"}
+                av = dict(av, pool=frozenset(av["pool"]) - pending)
+                mv = dict(mv, pool=frozenset(mv["pool"]) - pending)
             if av != mv:
                 problems.append(("state-mismatch", {"step": i, "model": repr(mv), "impl": repr(av),
                                                     "path": [p[1] for p in plan[:i]]}))
